@@ -402,8 +402,9 @@ fn builders_and_proplists(rep: &Report) {
                 match m {
                     0 => { kw = kw.put(k, v); mb = mb.insert(k, v); }
                     1 => { kw = kw.put_atom(k, "val"); mb = mb.insert_atom(k, "val"); }
-                    2 => { kw = kw.put_if(true, k, v).put_if(false, "never", 0i64); mb = mb.insert_if(true, k, v).insert_if(false, "never", 0i64); }
-                    3 => { kw = kw.put_some(k, Some(v)).put_some("never", None::<i64>); mb = mb.insert_some(k, Some(v)).insert_some("never", None::<i64>); }
+                    // (the "nothing to add" forms are also aimed at the key just written and at the first key: they leave everything as it is)
+                    2 => { kw = kw.put_if(true, k, v).put_if(false, "never", 0i64).put_if(false, k, 0i64).put_if(false, KS[0], 0i64); mb = mb.insert_if(true, k, v).insert_if(false, "never", 0i64).insert_if(false, k, 0i64).insert_if(false, KS[0], 0i64); }
+                    3 => { kw = kw.put_some(k, Some(v)).put_some("never", None::<i64>).put_some(k, None::<i64>).put_some(KS[0], None::<i64>); mb = mb.insert_some(k, Some(v)).insert_some("never", None::<i64>).insert_some(k, None::<i64>).insert_some(KS[0], None::<i64>); }
                     _ => { kw = kw.extend(vec![(k, v)]); mb = mb.extend(vec![(k, v)]); }
                 }
                 let _ = vt;
